@@ -97,14 +97,16 @@ def check_case(case):
                 return r
         if r.fails or not judged:
             continue
-        # order pass: one parse + grounding per schedule; fresh state per apply (apply copies, but a
-        # state is never shared between schedules so that an impure apply cannot leak into C03)
+        # order pass: one parse per schedule, the states are built once per call and shared between schedules (apply
+        # copies its input); a disagreement is confirmed in isolation (fresh objects, same schedule) before it counts,
+        # so that an impure apply cannot leak into C03
+        lib_states = [pg.lib_state(st) for st, _, _ in judged]
+
         def run(sched):
             out = []
             with installed(sched):
                 D = parse_domain(pg.text)
-                for st, _, _ in judged:
-                    ls, pr = pg.lib_state(st, D)
+                for ls, pr in lib_states:
                     out.append(observe(guard(lambda: operator(D, "a", args, pr.objects).apply(ls))))
             return out
 
@@ -114,7 +116,14 @@ def check_case(case):
                 r.count("transitions")
                 if isinstance(got, RefState) and same_state(got, s_succ):
                     continue
-                if judge(got, s_succ, p_succ, args, st, sched.describe()):
+
+                def confirm():
+                    with installed(Sched(sched.choices)):
+                        D = parse_domain(pg.text)
+                        ls, pr = pg.lib_state(st, D)
+                        return operator(D, "a", args, pr.objects).apply(ls)
+                got2 = observe(guard(confirm))
+                if judge(got2, s_succ, p_succ, args, st, sched.describe()):
                     break
             if r.fails:
                 break
